@@ -18,7 +18,7 @@ Definition peer_of_policy (p : rawpolicy) : peer :=
          pr_hostkeys := map (fun x => match x with (t, sz, cat, casz) => (t, {| hk_size := sz; hk_ca_type := cat; hk_ca_size := casz |}) end)
                             (match hks with Some l => l | None => [] end);
          pr_dh := match dh with Some l => l | None => [] end;
-         pr_rate_notes := "" |}
+         pr_rate_notes := ""; pr_general := [] |}
   end.
 
 Definition policy_peer_failures : list string :=
